@@ -15,6 +15,16 @@ func Gen(t *rapid.T) *Case {
 	if c.Strict {
 		types = []int{0, 0, 0, 1, 1, 2, 2, 2, 2, 3}
 	}
+	churn := rapid.IntRange(0, 7).Draw(t, "churn") == 0
+	if churn {
+		// a long history of inserts and deletes over a few keys, without
+		// resets: whatever a store does once it has seen 32, 64, 128 ...
+		// removals (compaction, rebuilding) happens here
+		n = rapid.IntRange(120, 400).Draw(t, "churnN")
+		kinds = []string{"insert", "insert", "delete", "delete", "deleteold", "update", "snapend"}
+		types = []int{0, 0, 0, 2}
+		c.Direct = true
+	}
 	for i := 0; i < n; i++ {
 		m := Msg{K: rapid.SampledFrom(kinds).Draw(t, "k")}
 		switch m.K {
@@ -22,6 +32,9 @@ func Gen(t *rapid.T) *Case {
 		default:
 			m.T = rapid.SampledFrom(types).Draw(t, "t")
 			m.Key = rapid.IntRange(0, len(Keys)-1).Draw(t, "key")
+			if churn {
+				m.Key = rapid.IntRange(0, 2).Draw(t, "churnKey")
+			}
 			m.Name = rapid.SampledFrom([]string{"", "a", "Zoë", "名前", "x/y"}).Draw(t, "name")
 			m.N = rapid.IntRange(-5, 50).Draw(t, "n")
 			if rapid.IntRange(0, 3).Draw(t, "tx") == 0 {
